@@ -155,4 +155,121 @@ theorem fft2_energy_tensor_dft (t : Tensor ℂ) (dims : List Nat)
     exact tensorEnergy_applyAxes t.shape (dftF inv .ortho) dims hr (hlenF inv .ortho)
       (fun d _ xs => energy_torchFft_ortho inv xs) x hx
 
+/-! ## the centred transform over two axes as a single double sum -/
+
+/-- the centred 1-D operator `fftshift ∘ fft(norm) ∘ ifftshift` -/
+noncomputable def cfft1 (inverse : Bool) (nm : Norm) (xs : List ℂ) : List ℂ :=
+  fftshift1 (torchFft inverse nm (ifftshift1 xs))
+
+/-- the centred DFT matrix: `A k j = scale · e^{∓2πi (j - c)(k - c)/n}`, `c = n / 2` -/
+noncomputable def cdftMat (inverse : Bool) (nm : Norm) : (n : Nat) → Nat → Nat → ℂ
+  | 0 => fun _ _ => 0
+  | m + 1 => fun k j => scale inverse nm (m + 1) *
+      (stdAddChar (N := m + 1)
+        (if inverse then ((j : ZMod (m + 1)) - (((m + 1) / 2 : ℕ) : ZMod (m + 1))) * ((k : ZMod (m + 1)) - (((m + 1) / 2 : ℕ) : ZMod (m + 1)))
+          else -(((j : ZMod (m + 1)) - (((m + 1) / 2 : ℕ) : ZMod (m + 1))) * ((k : ZMod (m + 1)) - (((m + 1) / 2 : ℕ) : ZMod (m + 1))))) : ℂ)
+
+theorem cfft1_length (inverse : Bool) (nm : Norm) (xs : List ℂ) : (cfft1 inverse nm xs).length = xs.length := by
+  unfold cfft1; rw [C01.fftshift1_length, torchFft_length, C01.ifftshift1_length]
+
+/-- the centred 1-D operator is multiplication by the centred DFT matrix -/
+theorem cfft1_isLinear (inverse : Bool) (nm : Norm) (n : Nat) : IsLinear (cfft1 inverse nm) n n (cdftMat inverse nm n) := by
+  refine ⟨fun xs hxs => by rw [cfft1_length, hxs], ?_⟩
+  intro xs hxs k hk
+  cases n with
+  | zero => omega
+  | succ m =>
+    have hkv : ((k : ZMod (m + 1))).val = k := ZMod.val_natCast_of_lt hk
+    have h1 : (cfft1 inverse nm xs).getD k default = toFn (n := m + 1) (cfft1 inverse nm xs) (k : ZMod (m + 1)) := by
+      simp only [toFn, hkv]; rfl
+    rw [h1]
+    unfold cfft1
+    rw [centered_eq_shifted_dft inverse nm xs hxs, sum_zmod_eq_range, Finset.mul_sum]
+    refine Finset.sum_congr rfl fun j hj => ?_
+    have hjv : ((j : ZMod (m + 1))).val = j := ZMod.val_natCast_of_lt (Finset.mem_range.mp hj)
+    simp only [cdftMat, toFn, hjv]
+    rw [mul_assoc]; rfl
+
+/-- fusing two liftings along the same axis of a well-formed tensor of shape `s` -/
+theorem comp_on {s : List Nat} {x : Tensor ℂ} (hx : WF s x) (d : Nat) (hd : d < s.length) (f g : List ℂ → List ℂ)
+    (hf : LenUniform f (s.getD d 1) (s.getD d 1)) (hg : LenUniform g (s.getD d 1) (s.getD d 1)) :
+    (x.alongAxis d f).alongAxis d g = x.alongAxis d (g ∘ f) :=
+  alongAxis_comp x d f g _ _ (by rw [hx.2]; exact hd) (by rw [hx.2]; exact hf) hg
+
+theorem lenU_torchFft (inverse : Bool) (nm : Norm) (n : Nat) : LenUniform (torchFft inverse nm) n n :=
+  fun xs hxs => by rw [torchFft_length, hxs]
+
+/-- **regrouping per axis**: over two axes `a < b` the centred plan
+`fftshift ∘ fftn ∘ ifftshift` is the lifting of the centred 1-D operator along `a`, then along `b` -/
+theorem centred_two_axes (t : Tensor ℂ) (a b : Nat) (hab : a < b) (hb : b < t.shape.length)
+    (hwf : t.data.length = prod t.shape) (inverse : Bool) (nm : Norm) :
+    Shift.fftshift (applyAxes (fun d u => u.alongAxis d (dftF inverse nm d)) [a, b] (Shift.ifftshift t [a, b])) [a, b] =
+      (t.alongAxis a (cfft1 inverse nm)).alongAxis b (cfft1 inverse nm) := by
+  have ha : a < t.shape.length := by omega
+  have hne : a ≠ b := by omega
+  have hr : ∀ d ∈ [a, b], d < t.shape.length := by
+    intro d hd; simp only [List.mem_cons, List.not_mem_nil, or_false] at hd; rcases hd with rfl | rfl <;> assumption
+  have ht : WF t.shape t := ⟨hwf, rfl⟩
+  have lI := fun n => lenUniform_ifftshift1 (α := ℂ) n
+  have lS := fun n => lenUniform_fftshift1 (α := ℂ) n
+  have lF := lenU_torchFft inverse nm
+  -- unfold the three stages into per-axis liftings
+  have h1 : WF t.shape ((t.alongAxis a ifftshift1).alongAxis b ifftshift1) :=
+    (ht.alongAxis a ha _ (lI _)).alongAxis b hb _ (lI _)
+  have e1 : Shift.ifftshift t [a, b] = (t.alongAxis a ifftshift1).alongAxis b ifftshift1 :=
+    ifftshift_eq_applyAxes t.shape [a, b] hr t ht
+  have h2 : WF t.shape ((((t.alongAxis a ifftshift1).alongAxis b ifftshift1).alongAxis a (torchFft inverse nm)).alongAxis b
+      (torchFft inverse nm)) := (h1.alongAxis a ha _ (lF _)).alongAxis b hb _ (lF _)
+  rw [e1]
+  show Shift.fftshift ((((t.alongAxis a ifftshift1).alongAxis b ifftshift1).alongAxis a (torchFft inverse nm)).alongAxis b
+    (torchFft inverse nm)) [a, b] = _
+  rw [fftshift_eq_applyAxes t.shape [a, b] hr _ h2]
+  show (((((t.alongAxis a ifftshift1).alongAxis b ifftshift1).alongAxis a (torchFft inverse nm)).alongAxis b
+    (torchFft inverse nm)).alongAxis a fftshift1).alongAxis b fftshift1 = _
+  -- move the `a`-transform before the `b`-ifftshift, fuse per axis
+  have hA : WF t.shape (t.alongAxis a ifftshift1) := ht.alongAxis a ha _ (lI _)
+  rw [ifftshift_comm_nd (t.alongAxis a ifftshift1) b a (torchFft inverse nm) _ hne.symm (by rw [hA.2]; exact hb)
+      (by rw [hA.2]; exact ha) (by rw [hA.2]; exact lF _),
+    comp_on ht a ha _ _ (lI _) (lF _)]
+  have hAF : WF t.shape (t.alongAxis a (torchFft inverse nm ∘ ifftshift1)) :=
+    ht.alongAxis a ha _ (fun xs hxs => by rw [Function.comp, torchFft_length, C01.ifftshift1_length, hxs])
+  rw [comp_on hAF b hb _ _ (lI _) (lF _)]
+  -- move the `a`-fftshift before the `b`-block, fuse per axis
+  have lFI : LenUniform (torchFft inverse nm ∘ ifftshift1) (t.shape.getD b 1) (t.shape.getD b 1) :=
+    fun xs hxs => by rw [Function.comp, torchFft_length, C01.ifftshift1_length, hxs]
+  rw [← fftshift_comm_nd (t.alongAxis a (torchFft inverse nm ∘ ifftshift1)) a b (torchFft inverse nm ∘ ifftshift1) _ hne
+      (by rw [hAF.2]; exact ha) (by rw [hAF.2]; exact hb) (by rw [hAF.2]; exact lFI),
+    comp_on ht a ha _ _ (fun xs hxs => by rw [Function.comp, torchFft_length, C01.ifftshift1_length, hxs]) (lS _)]
+  have hAS : WF t.shape (t.alongAxis a (fftshift1 ∘ (torchFft inverse nm ∘ ifftshift1))) :=
+    ht.alongAxis a ha _ (fun xs hxs => by
+      rw [Function.comp, C01.fftshift1_length, Function.comp, torchFft_length, C01.ifftshift1_length, hxs])
+  rw [comp_on hAS b hb _ _ lFI (lS _)]
+  rfl
+
+/-- **`fft2` over two axes as a single double sum** (the n-D formula for an axis pair): for a
+well-formed complex tensor and axes `a < b`, with `A = Π shape[:a]`, `M = Π shape[a+1:b]`,
+`C = Π shape[b+1:]`, the entry `(α, k, μ, l, c)` of the centred `fft2` / `ifft2` of the backend the
+driver runs is
+`Σ_y Σ_x  W_b(l, y) · W_a(k, x) · t(α, x, μ, y, c)`,  `W_n(k, x) = scale · e^{∓2πi (x - ⌊n/2⌋)(k - ⌊n/2⌋)/n}`. -/
+theorem fft2_two_axes_sum (t : Tensor ℂ) (a b : Nat) (hab : a < b) (hb : b < t.shape.length)
+    (hwf : t.data.length = prod t.shape) (normalized ci : Bool) (inverse : Bool) :
+    ∃ M, prod (t.shape.take b) = prod (t.shape.take a) * t.shape.getD a 1 * M ∧
+      ∀ α k μ l c, α < prod (t.shape.take a) → k < t.shape.getD a 1 → μ < M → l < t.shape.getD b 1 →
+        c < prod (t.shape.drop (b + 1)) →
+        ((if inverse then ifft2 else fft2) (tensorBackend dftF [a, b]) ⟨true, normalized, ci⟩ t).data.getD
+            (((α * t.shape.getD a 1 + k) * M + μ) * t.shape.getD b 1 * prod (t.shape.drop (b + 1))
+              + l * prod (t.shape.drop (b + 1)) + c) default =
+          ∑ y ∈ Finset.range (t.shape.getD b 1), ∑ x ∈ Finset.range (t.shape.getD a 1),
+            cdftMat inverse (normOf ⟨true, normalized, ci⟩) (t.shape.getD b 1) l y *
+              (cdftMat inverse (normOf ⟨true, normalized, ci⟩) (t.shape.getD a 1) k x *
+                t.data.getD (((α * t.shape.getD a 1 + x) * M + μ) * t.shape.getD b 1 * prod (t.shape.drop (b + 1))
+                  + y * prod (t.shape.drop (b + 1)) + c) default) := by
+  have key : (if inverse then ifft2 else fft2) (tensorBackend dftF [a, b]) ⟨true, normalized, ci⟩ t =
+      (t.alongAxis a (cfft1 inverse (normOf ⟨true, normalized, ci⟩))).alongAxis b (cfft1 inverse (normOf ⟨true, normalized, ci⟩)) := by
+    rw [← centred_two_axes t a b hab hb hwf inverse (normOf ⟨true, normalized, ci⟩)]
+    cases inverse <;> cases normalized <;> cases ci <;>
+      simp [fft2, ifft2, runData, fft2Plan, ifft2Plan, Guard.holds, applyOp, tensorBackend, normOf]
+  rw [key]
+  exact alongAxis2_linear_getD t a b _ _ _ _ _ _ hab hb (cfft1_isLinear _ _ _) (cfft1_isLinear _ _ _)
+
 end DirectVerif.C01DftND
